@@ -15,7 +15,7 @@ from typing import Dict, List, Optional
 from ..algebra import Rat, to_rat
 from ..index import AnalysisError, call_name, norm, norm1
 from .c12 import check_reorder
-from .common import calls, enclosing, fctx, in_body, is_name, method_calls, stmts
+from .common import Frag, calls, const_of, enclosing, fctx, in_body, is_name, kwarg, method_calls, pmatch, stmts
 
 LEVEL = "other"
 EXPLANATION = (
@@ -37,54 +37,85 @@ def run(ctx) -> None:
     r1 = ctx.rules[-1]
     ek = idx.function(EK, "evaluate_k_path")
     r1.instance(ek.short)
-    t = norm(ek.node).replace(" ", "")
-    r1.check("result=run(system,grid=path,calculators={'tabulate':tabulator_all},parallel=parallel,**kwargs)" in t and "mode='path'" in t,
-             "evaluate_k_path evaluates the path through run() in path mode", ek, ek.node,
-             "evaluate_k_path no longer goes through run(grid=path) with a path-mode TabulatorAll (no re-ordering applied)", stmt="run(grid=path)")
+    ecfg, edu, epm = fctx(ek)
+    rc = [c for c in calls(ek.node, "run") if call_name(c) == "run"]
+    if len(rc) != 1:
+        r1.expect(False, "run() call located", ek, ek.node, "evaluate_k_path: the single call of run() was not found")
+    else:
+        c = rc[0]
+        g = kwarg(c, "grid", 1)
+        cal = kwarg(c, "calculators", 2)
+        okg = g is not None and isinstance(edu.resolve_local(g, edu.node_of_expr(c)), ast.Name) and edu.resolve_local(g, edu.node_of_expr(c)).id == "path"
+        tab_ok = False
+        if isinstance(cal, ast.Dict):
+            for v in cal.values:
+                vv = edu.resolve_local(v, edu.node_of_expr(c))
+                if isinstance(vv, ast.Call) and call_name(vv).endswith("TabulatorAll") and const_of(kwarg(vv, "mode"), "grid") == "path":
+                    tab_ok = True
+        r1.check(okg and tab_ok, "evaluate_k_path evaluates the path through run(grid=path) with a path-mode TabulatorAll", ek, c,
+                 f"`{norm1(c, 100)}`: evaluate_k_path no longer goes through run(grid=path) with a TabulatorAll in mode='path' (no re-ordering of the "
+                 f"asynchronously gathered batches is applied)")
 
     # ---------------------------------------------------------------- R29.2
     r2 = ctx.rule("R29.2", "get_refined keeps original points and their labels/breaks; uniform insertion")
     f = idx.function(PT, "Path.get_refined")
     cfg, du, pm = fctx(f)
     r2.instance(f.short)
-    loops = [s for s in f.node.body if isinstance(s, ast.For)]
-    if len(loops) != 1:
-        raise AnalysisError("get_refined: main loop not found")
+    rt = [s_ for s_ in stmts(f.node) if isinstance(s_, ast.Return) and isinstance(s_.value, ast.Call)]
+    loops = [s_ for s_ in f.node.body if isinstance(s_, ast.For)]
+    if len(loops) != 1 or len(rt) != 1 or not isinstance(loops[0].target, ast.Name):
+        r2.expect(False, "main loop and return located", f, f.node, "get_refined: one top-level loop and one `return Path(…)` expected")
+        return
     lp = loops[0]
     i = lp.target.id
     body = lp.body
-    lst = "K_list_refined"
+    kws = {k.arg: norm(k.value) for k in rt[0].value.keywords}
+    lst, labs, brks = kws.get("k_list"), kws.get("labels"), kws.get("breaks")
+    r2.expect(all(x is not None and x.isidentifier() for x in (lst, labs, brks)), "returned lists are local names", f, rt[0],
+              "get_refined: `return Path(k_list=…, labels=…, breaks=…)` with local lists expected")
+    if not all(x is not None and x.isidentifier() for x in (lst, labs, brks)):
+        return
+    for nm, empty in ((lst, ("[]", "list()")), (labs, ("{}", "dict()")), (brks, ("[]", "list()"))):
+        d0 = [d for ds in du.defs_at.values() for d in ds if d.name == nm]
+        r2.check(len(d0) == 1 and d0[0].value is not None and norm(d0[0].value) in empty, f"`{nm}` starts empty and is never rebound", f, d0[0].stmt if d0 else f.node,
+                 f"`{nm}` is rebound / does not start empty in get_refined: previously collected points, labels or breaks are lost")
+    lpi = du.resolve_local(lp.iter.args[0], cfg.node(lp)) if isinstance(lp.iter, ast.Call) and call_name(lp.iter) == "range" and len(lp.iter.args) == 1 else None
+    n_last = norm(lpi).replace(" ", "") if lpi is not None else None
+    last_names = {norm(lp.iter.args[0])} if lpi is not None else set()
 
     def pos(pred) -> List[int]:
-        return [k for k, s in enumerate(body) if pred(s)]
-    p_app = pos(lambda s: isinstance(s, ast.Expr) and norm(s.value).replace(" ", "") == f"{lst}.append(self.K_list[{i}])")
-    p_lab = pos(lambda s: isinstance(s, ast.If) and norm(s.test) == f"{i} in self.labels")
-    p_brk = pos(lambda s: isinstance(s, ast.If) and norm(s.test) == f"{i} in self.breaks")
-    p_ins = pos(lambda s: any(isinstance(x, ast.For) for x in ast.walk(s)) and f"{lst}.append(" in norm(s))
-    r2.check(len(p_app) == 1 and norm(lp.iter).replace(" ", "") in ("range(last_point_index)", "range(len(self.K_list)-1)"),
-             "every original point except the last is appended in the loop", f, lp, "get_refined does not append every original point K_list[i]")
+        return [k for k, s_ in enumerate(body) if pred(s_)]
+    p_app = pos(lambda s_: isinstance(s_, ast.Expr) and norm(s_.value).replace(" ", "") == f"{lst}.append(self.K_list[{i}])")
+    p_lab = pos(lambda s_: isinstance(s_, ast.If) and norm(s_.test) == f"{i} in self.labels")
+    p_brk = pos(lambda s_: isinstance(s_, ast.If) and norm(s_.test) == f"{i} in self.breaks")
+    p_ins = pos(lambda s_: any(isinstance(x, ast.For) for x in ast.walk(s_)) and f"{lst}.append(" in norm(s_))
+    r2.check(len(p_app) == 1 and n_last == "len(self.K_list)-1",
+             "every original point except the last is appended in the loop", f, lp, "get_refined does not append every original point K_list[i], i < len − 1")
     ok_order = bool(p_app and p_lab and p_brk and p_ins) and p_app[0] < p_lab[0] < p_ins[-1] and p_app[0] < p_brk[0] < p_ins[-1]
     r2.check(ok_order, "labels and breaks are re-keyed right after their own point, before inserted points", f, body[p_lab[0]] if p_lab else lp,
-             "a label/break index is taken from len(K_list_refined) − 1 when that is not the position of the point it belongs to "
+             "a label/break index is taken from len(refined) − 1 when that is not the position of the point it belongs to "
              "(taken before the point is appended, or after interpolated points were inserted): labels drift off their k-points")
-    for p in (p_lab + p_brk)[:2]:
-        s = body[p]
-        tt = norm(s).replace(" ", "")
-        r2.check(f"len({lst})-1" in tt, "new key = len(refined) − 1", f, s, f"`{norm1(s)}` does not key the label/break by len({lst}) − 1")
+    for p_, kind in [(x, "label") for x in p_lab[:1]] + [(x, "break") for x in p_brk[:1]]:
+        s_ = body[p_]
+        want = f"{labs}[len({lst}) - 1] = self.labels[{i}]" if kind == "label" else f"{brks}.append(len({lst}) - 1)"
+        r2.check(len(s_.body) == 1 and not s_.orelse and bool(pmatch(s_.body[0], want)) , f"{kind}: new key = len(refined) − 1, value = the point's own {kind}", f, s_,
+                 f"`{norm1(s_)}` does not re-key the {kind} of point {i} by len({lst}) − 1")
     # inserted points
-    ins = [x for x in ast.walk(lp) if isinstance(x, ast.Call) and norm(x.func) == f"{lst}.append" and x.args and "segment" in norm(x.args[0])]
+    ins = [x for x in ast.walk(lp) if isinstance(x, ast.Call) and norm(x.func) == f"{lst}.append" and x.args and enclosing(pm, x, ast.For) is not lp]
     if len(ins) != 1:
-        raise AnalysisError("get_refined: inserted-point expression not found")
+        r2.expect(False, "inserted-point expression located", f, lp, "get_refined: the append of interpolated points inside an inner loop was not found")
+        return
     jl = enclosing(pm, ins[0], ast.For)
-    seg = du.single_def("segment", du.node_of_expr(ins[0]))
+    at_ins = du.node_of_expr(ins[0])
 
     def env(x):
         if isinstance(x, ast.Subscript) and norm(x.value) == "self.K_list":
             tt = norm(x.slice).replace(" ", "")
-            return Rat.sym("K1") if tt == f"{i}+1" else Rat.sym("K0") if tt == i else None
+            return Rat.sym("K1") if tt in (f"{i}+1", f"1+{i}") else Rat.sym("K0") if tt == i else None
         if isinstance(x, ast.Name):
-            if x.id == "segment" and seg is not None:
-                return to_rat(seg.value, env)
+            dd = du.single_def(x.id, at_ins)
+            if dd is not None and dd.kind == "assign" and x.id not in (i, "factor"):
+                return to_rat(dd.value, env)
             return Rat.sym(x.id)
         return None
     got = to_rat(ins[0].args[0], env)
@@ -93,80 +124,171 @@ def run(ctx) -> None:
     r2.check(got.equals(want) and norm(jl.iter).replace(" ", "") == "range(1,factor)", "inserted points are K_i + j (K_{i+1} − K_i)/factor, j = 1 … factor−1",
              f, ins[0], f"inserted points `{norm1(ins[0].args[0])}` over `{norm1(jl.iter)}` are not the uniform subdivision of the segment")
     g = enclosing(pm, jl, ast.If)
-    r2.check(g is not None and norm(g.test) == f"{i} not in self.breaks", "no points are inserted across a break", f, g or jl,
-             "points are interpolated across a break of the path")
+    okb = g is not None and ((norm(g.test) == f"{i} not in self.breaks" and in_body(g.body, jl)) or (norm(g.test) == f"{i} in self.breaks" and in_body(g.orelse, jl)))
+    r2.check(okb, "no points are inserted across a break", f, g or jl, "points are interpolated across a break of the path")
     after = f.node.body[f.node.body.index(lp) + 1:]
-    ta = " ".join(norm(s) for s in after).replace(" ", "")
-    r2.check(f"{lst}.append(self.K_list[-1])" in ta and "iflast_point_indexinself.labels:" in ta and "iflast_point_indexinself.breaks:" in ta,
-             "the last point, its label and break are appended after the loop", f, after[0] if after else f.node,
+    lastn = "|".join(sorted(last_names | {"len(self.K_list) - 1"}))
+    A = ast.Module(body=after, type_ignores=[])
+
+    def after_has(pat_variants) -> bool:
+        return any(pmatch(A, p_) for p_ in pat_variants)
+    lasts = sorted(last_names | {"len(self.K_list) - 1"})
+    ok_last = after_has([f"{lst}.append(self.K_list[-1])"] + [f"{lst}.append(self.K_list[{x}])" for x in lasts]) and \
+        after_has([f"if {x} in self.labels:\n    {labs}[len({lst}) - 1] = self.labels[{x}]" for x in lasts]) and \
+        after_has([f"if {x} in self.breaks:\n    {brks}.append(len({lst}) - 1)" for x in lasts])
+    r2.check(ok_last, "the last point, its label and break are appended after the loop", f, after[0] if after else f.node,
              "the last point of the path (or its label/break) is lost by get_refined", stmt="last point")
-    rt = [s for s in stmts(f.node) if isinstance(s, ast.Return)]
-    tr = norm(rt[0].value).replace(" ", "") if rt else ""
-    r2.check(f"k_list={lst}" in tr and "labels=labels_refined" in tr and "breaks=breaks_refined" in tr, "the refined lists are what is returned", f,
-             rt[0] if rt else f.node, "get_refined does not return the refined points/labels/breaks")
+    if ok_last:
+        ia = [k for k, s_ in enumerate(after) if any(pmatch(s_, p_) for p_ in [f"{lst}.append(self.K_list[-1])"] + [f"{lst}.append(self.K_list[{x}])" for x in lasts])]
+        il = [k for k, s_ in enumerate(after) if isinstance(s_, ast.If) and "self.labels" in norm(s_.test)]
+        r2.check(bool(ia and il) and ia[0] < il[0], "… in that order (point first, then its label)", f, after[il[0]] if il else f.node,
+                 "the last label is keyed before the last point is appended: it lands on the previous point")
 
     # ---------------------------------------------------------------- R29.3
     r3 = ctx.rule("R29.3", "path coordinate = cumulative sum of non-negative increments")
     gk = idx.function(PT, "Path.getKline")
     r3.instance(gk.short)
     kcfg, kdu, kpm = fctx(gk)
-    st = [s for s in stmts(gk.node) if isinstance(s, ast.Assign) and norm(s.targets[0]).replace(" ", "") == "K[1:]"]
-    if len(st) != 1:
-        raise AnalysisError("getKline: `K[1:] = …` not found")
-    r3.check(norm(st[0].value).replace(" ", "") == "np.cumsum(k)", "K[1:] = cumsum(k)", gk, st[0], f"`{norm1(st[0])}` is not the cumulative sum of the increments")
-    kd = [s for s in stmts(gk.node) if isinstance(s, ast.Assign) and is_name(s.targets[0], "k")]
-    r3.check(len(kd) == 1 and norm(kd[0].value).replace(" ", "") == "np.linalg.norm(KPcart[1:,:]-KPcart[:-1,:],axis=1)", "increments are Cartesian distances between consecutive points",
-             gk, kd[0] if kd else gk.node, "the increments are not norms of consecutive differences of the Cartesian k-points")
-    mods = [s for s in stmts(gk.node) if isinstance(s, (ast.Assign, ast.AugAssign)) and isinstance((s.targets[0] if isinstance(s, ast.Assign) else s.target), ast.Subscript)
-            and norm((s.targets[0] if isinstance(s, ast.Assign) else s.target).value) == "k"]
-    r3.check(all(isinstance(s, ast.Assign) and norm(s.value) in ("0.0", "0") for s in mods), "increments are only ever overwritten with 0", gk, mods[0] if mods else gk.node,
+    G = Frag(gk)
+    cs = G.find("K[1:] = np.cumsum(k)")
+    anycs = [s_ for s_ in stmts(gk.node) if isinstance(s_, ast.Assign) and any(call_name(c_).endswith("cumsum") for c_ in ast.walk(s_.value) if isinstance(c_, ast.Call))]
+    if not cs and not anycs:
+        r3.expect(False, "cumsum located", gk, gk.node, "getKline: no cumulative sum found")
+        return
+    r3.check(len(cs) == 1, "K[1:] = cumsum(k)", gk, (cs or [(anycs[0], {})])[0][0], f"`{norm1(anycs[0]) if anycs else ''}` is not K[1:] = cumsum(increments)")
+    if not cs:
+        return
+    kname, Kname = cs[0][1]["k"], cs[0][1]["K"]
+    kd = [d for ds in kdu.defs_at.values() for d in ds if d.name == kname]
+    cart = G.find(f"{kname} = np.linalg.norm(KPcart[1:, :] - KPcart[:-1, :], axis=1)") or G.find(f"{kname} = np.linalg.norm(KPcart[1:] - KPcart[:-1], axis=1)") \
+        or G.find(f"{kname} = np.linalg.norm(np.diff(KPcart, axis=0), axis=1)")
+    r3.check(len(kd) == 1 and bool(cart), "increments are Cartesian distances between consecutive points",
+             gk, kd[0].stmt if kd else gk.node, "the increments are not norms of consecutive differences of the Cartesian k-points")
+    mods = [s_ for s_ in stmts(gk.node) if isinstance(s_, (ast.Assign, ast.AugAssign)) and isinstance((s_.targets[0] if isinstance(s_, ast.Assign) else s_.target), ast.Subscript)
+            and norm((s_.targets[0] if isinstance(s_, ast.Assign) else s_.target).value) == kname]
+    r3.check(all(isinstance(s_, ast.Assign) and const_of(s_.value) == 0 for s_ in mods), "increments are only ever overwritten with 0", gk, mods[0] if mods else gk.node,
              "an increment of the path coordinate is modified by something other than a store of 0: the coordinate can decrease")
-    r3.check("K = np.zeros(KPcart.shape[0])" in norm(gk.node) and "KPcart = self.K_list.dot(self.recip_lattice)" in norm(gk.node), "K starts at 0; distances are Cartesian",
-             gk, gk.node, "getKline no longer starts at 0 / uses Cartesian coordinates", stmt="K0")
+    r3.check(bool(G.find("KPcart = self.K_list.dot(self.recip_lattice)") or G.find("KPcart = self.K_list @ self.recip_lattice") or G.find("KPcart = self.get_kpoints_cart()"))
+             and bool(G.find(f"{Kname} = np.zeros(KPcart.shape[0])") or G.find(f"{Kname} = np.zeros(len(KPcart))") or G.find(f"{Kname} = np.zeros(len(self.K_list))")),
+             "K starts at 0; distances are Cartesian", gk, gk.node, "getKline no longer starts at 0 / uses Cartesian coordinates", stmt="K0")
+    retk = [s_ for s_ in stmts(gk.node) if isinstance(s_, ast.Return)]
+    r3.check(len(retk) == 1 and norm(retk[0].value) == Kname, "the cumulative coordinate is what is returned", gk, retk[0] if retk else gk.node,
+             "getKline does not return the cumulative coordinate")
 
     # ---------------------------------------------------------------- R29.4
     r4 = ctx.rule("R29.4", "from_nodes: labels on nodes, uniform segments, last node appended")
     fn = idx.function(PT, "Path.from_nodes")
     r4.instance(fn.short)
     ncfg, ndu, npm = fctx(fn)
-    lp = [s for s in stmts(fn.node) if isinstance(s, ast.For) and "zip(nodes, nodes[1:], labels, labels[1:])" in norm(s.iter)]
-    if len(lp) != 1:
-        raise AnalysisError("from_nodes: segment loop not found")
-    seg_if = [s for s in lp[0].body if isinstance(s, ast.If)]
+    N = Frag(fn)
+    lpm = N.find("for start, end, l1, l2 in zip(nodes, nodes[1:], labels, labels[1:]):\n    ...")
+    if len(lpm) != 1:
+        r4.expect(False, "segment loop located", fn, fn.node, "from_nodes: `for start, end, l1, l2 in zip(nodes, nodes[1:], labels, labels[1:])` not found")
+        return
+    lp4, b4 = lpm[0]
+    st_, en_, l1_ = b4["start"], b4["end"], b4["l1"]
+    seg_if = [s_ for s_ in lp4.body if isinstance(s_, ast.If) and norm(s_.test) in (f"{st_} is not None and {en_} is not None", f"{en_} is not None and {st_} is not None")]
+    if len(seg_if) != 1:
+        r4.expect(False, "segment branch located", fn, lp4, "from_nodes: the `start is not None and end is not None` branch was not found")
+        return
     arm = seg_if[0].body
-    p_lab = [k for k, s in enumerate(arm) if norm(s).replace(" ", "") == "new_labels[K_list.shape[0]]=l1"]
-    p_stk = [k for k, s in enumerate(arm) if isinstance(s, ast.Assign) and is_name(s.targets[0], "K_list") and "np.vstack" in norm(s.value)]
-    r4.check(bool(p_lab and p_stk) and p_lab[0] < p_stk[0], "the start label is keyed by the index the node is about to get", fn, arm[p_lab[0]] if p_lab else lp[0],
-             "the label of a segment's start node is stored after the segment was stacked: it lands on the wrong k-point")
-    stk = arm[p_stk[0]] if p_stk else None
-    ts = norm(stk.value).replace(" ", "") if stk is not None else ""
-    r4.check("start[None,:]+np.linspace(0,1.0,_nk-1,endpoint=False)[:,None]*(end-start)[None,:]" in ts, "segment sampling: start + t (end − start), t uniform in [0, 1)",
-             fn, stk or lp[0], "a segment is no longer sampled as start + linspace(0, 1, _nk − 1, endpoint=False)·(end − start)")
-    after = fn.node.body[fn.node.body.index(lp[0]) + 1:]
-    ta = " ".join(norm(s) for s in after).replace(" ", "")
-    r4.check("K_list=np.vstack((K_list,nodes[-1]))" in ta and "new_labels[K_list.shape[0]-1]=labels[-1]" in ta and
-             ta.index("K_list=np.vstack((K_list,nodes[-1]))") < ta.index("new_labels[K_list.shape[0]-1]=labels[-1]"),
+    stk_m = [(k, s_) for k, s_ in enumerate(arm) if isinstance(s_, ast.Assign) and isinstance(s_.targets[0], ast.Name)
+             and any(call_name(c_) in ("np.vstack", "np.concatenate", "np.append") for c_ in ast.walk(s_.value) if isinstance(c_, ast.Call))]
+    if len(stk_m) != 1:
+        r4.expect(False, "stacking of the segment located", fn, seg_if[0], "from_nodes: the statement that stacks the sampled segment onto K_list was not found")
+        return
+    kl = stk_m[0][1].targets[0].id
+    nlab = None
+    p_lab = []
+    for k, s_ in enumerate(arm):
+        m_ = pmatch(s_, f"NL[{kl}.shape[0]] = {l1_}", {"NL"}) or pmatch(s_, f"NL[len({kl})] = {l1_}", {"NL"})
+        if m_ and m_[0][0] is s_:
+            p_lab.append(k)
+            nlab = m_[0][1]["NL"]
+    r4.check(bool(p_lab) and p_lab[0] < stk_m[0][0], "the start label is keyed by the index the node is about to get", fn, arm[p_lab[0]] if p_lab else seg_if[0],
+             "the label of a segment's start node is not stored (under the current length of K_list) before the segment is stacked: it lands on the wrong k-point")
+    stk = stk_m[0][1]
+    samp = pmatch(stk.value, f"np.vstack(({kl}, S0[None, :] + np.linspace(0, 1.0, NK - 1, endpoint=False)[:, None] * (E0 - S0)[None, :]))", {"S0", "E0", "NK"})
+    r4.check(bool(samp) and samp[0][0] is stk.value, "segment sampling: start + t (end − start), t uniform in [0, 1)",
+             fn, stk, "a segment is no longer sampled as start + linspace(0, 1, _nk − 1, endpoint=False)·(end − start) and stacked below K_list")
+    if samp:
+        sd = ndu.reaching(samp[0][1]["S0"], ncfg.node(stk))
+        ed = ndu.reaching(samp[0][1]["E0"], ncfg.node(stk))
+        r4.check(all(d.value is not None and norm(d.value) in (f"np.array({st_})", f"np.asarray({st_})") or d.kind == "for" for d in sd) and
+                 all(d.value is not None and norm(d.value) in (f"np.array({en_})", f"np.asarray({en_})") or d.kind == "for" for d in ed),
+                 "the sampled segment runs from this segment's start node to its end node", fn, stk, "the sampled segment does not run from the start node to the end node")
+    after = fn.node.body[fn.node.body.index(lp4) + 1:] if lp4 in fn.node.body else []
+    A = ast.Module(body=after, type_ignores=[])
+    i_st = [k for k, s_ in enumerate(after) if pmatch(s_, f"{kl} = np.vstack(({kl}, nodes[-1]))") or pmatch(s_, f"{kl} = np.vstack(({kl}, [nodes[-1]]))")]
+    i_lb = [k for k, s_ in enumerate(after) if nlab and (pmatch(s_, f"{nlab}[{kl}.shape[0] - 1] = labels[-1]") or pmatch(s_, f"{nlab}[len({kl}) - 1] = labels[-1]"))]
+    r4.check(bool(i_st and i_lb) and i_st[0] < i_lb[0],
              "the last node is appended and labelled at its own index", fn, after[0] if after else fn.node,
-             "the last node / its label is not appended at the end of the path")
-    r4.check("self.K_list=K_list" in ta and "self.labels=new_labels" in ta and "self.breaks=breaks" in ta, "the constructed lists are stored", fn, fn.node,
-             "from_nodes does not store the constructed K_list/labels/breaks", stmt="stores")
-    brk = [s for s in ast.walk(lp[0]) if isinstance(s, ast.Expr) and norm(s.value).replace(" ", "") == "breaks.append(K_list.shape[0]-1)"]
-    r4.check(len(brk) == 1, "a break is recorded at the node that ends a piece", fn, brk[0] if brk else lp[0], "breaks are not recorded at the end node of a piece")
+             "the last node / its label is not appended at the end of the path (label keyed by shape[0] − 1 after the node is stacked)")
+    brk = [s_ for s_ in ast.walk(lp4) if isinstance(s_, ast.Expr) and (pmatch(s_, f"BR.append({kl}.shape[0] - 1)", {"BR"}) or pmatch(s_, f"BR.append(len({kl}) - 1)", {"BR"}))]
+    r4.check(len(brk) == 1, "a break is recorded at the node that ends a piece", fn, brk[0] if brk else lp4, "breaks are not recorded at the end node of a piece")
+    bname = pmatch(brk[0], "BR.append(ANY)", {"BR"})[0][1]["BR"] if brk else None
+    if brk:
+        barm = enclosing(npm, brk[0], ast.If)
+        stack_one = [k for k, s_ in enumerate(barm.body if barm else []) if pmatch(s_, f"{kl} = np.vstack(({kl}, [{st_}]))") or pmatch(s_, f"{kl} = np.vstack(({kl}, {st_}))")]
+        ib = [k for k, s_ in enumerate(barm.body if barm else []) if s_ is brk[0]]
+        r4.check(barm is not None and bool(stack_one and ib) and stack_one[0] < ib[0], "… after the end node of the piece has been stacked", fn, brk[0],
+                 "the break index is taken before the last node of the piece is stacked: the break points at the previous k-point")
+    stores = {norm(s_.targets[0]): norm(s_.value) for s_ in after if isinstance(s_, ast.Assign) and isinstance(s_.targets[0], ast.Attribute)}
+    r4.check(stores.get("self.K_list") == kl and stores.get("self.labels") == nlab and stores.get("self.breaks") == bname, "the constructed lists are stored", fn, fn.node,
+             f"from_nodes does not store the constructed K_list/labels/breaks (stores: {stores})", stmt="stores")
 
     # ---------------------------------------------------------------- R29.5
     r5 = ctx.rule("R29.5", "K-point batches tile the path in order")
     gl = idx.function(PT, "Path.get_K_list")
     r5.instance(gl.short)
-    tg = norm(gl.node).replace(" ", "")
-    r5.check("forikinrange(0,len(self.K_list),k_batch):" in tg and "K=self.K_list[ik:ik+k_batch]" in tg and "K_list.append(KpointBZpath(K=K,pointgroup=self.pointgroup))" in tg,
-             "batches K_list[ik:ik+k_batch], ik = 0, k_batch, … cover every path point once, in order", gl, gl.node,
-             "the batches handed to run() do not tile the path (points skipped or duplicated)", stmt="batches")
+    L = Frag(gl)
+    kb = "k_batch"
+    cand = [s_ for s_ in stmts(gl.node) if isinstance(s_, ast.For) and isinstance(s_.target, ast.Name) and isinstance(s_.iter, ast.Call) and call_name(s_.iter) == "range"
+            and any(isinstance(n, ast.Subscript) and norm(n.value) == "self.K_list" for n in ast.walk(s_))]
+    if len(cand) != 1:
+        r5.expect(False, "batch loop located", gl, gl.node, "get_K_list: the loop that cuts self.K_list into batches was not found")
+    else:
+        lp5 = cand[0]
+        ik = lp5.target.id
+        ra = [norm(x).replace(" ", "") for x in lp5.iter.args]
+        r5.check(len(ra) == 3 and ra[0] == "0" and ra[1] in ("len(self.K_list)", "self.K_list.shape[0]") and ra[2] == kb,
+                 "batch starts: 0, k_batch, 2·k_batch, … < len(K_list)", gl, lp5,
+                 f"`{norm1(lp5.iter)}`: the batch starts are not range(0, len(self.K_list), k_batch): path points are skipped or evaluated twice")
+        sl = [n for n in ast.walk(lp5) if isinstance(n, ast.Subscript) and norm(n.value) == "self.K_list" and isinstance(n.slice, ast.Slice)]
+        oks = len(sl) == 1 and norm(sl[0].slice.lower or ast.Constant(0)) == ik and sl[0].slice.step is None and sl[0].slice.upper is not None \
+            and norm(sl[0].slice.upper).replace(" ", "") in (f"{ik}+{kb}", f"{kb}+{ik}")
+        r5.check(oks, "batch = K_list[ik : ik + k_batch]", gl, sl[0] if sl else lp5,
+                 f"`{norm1(sl[0]) if sl else ''}`: the batches handed to run() do not tile the path (points skipped or duplicated)")
+        ctor = [c for c in ast.walk(lp5) if isinstance(c, ast.Call) and call_name(c) == "KpointBZpath"]
+        okc = False
+        if len(ctor) == 1 and sl:
+            kv = kwarg(ctor[0], "K", 0)
+            kv = fctx(gl)[1].resolve_local(kv, fctx(gl)[1].node_of_expr(ctor[0])) if kv is not None else None
+            ap = fctx(gl)[2].get(ctor[0])
+            okc = kv is sl[0] and isinstance(fctx(gl)[2].get(ctor[0]), ast.Call) and fctx(gl)[2][ctor[0]].func.attr == "append"
+            ret = [s_ for s_ in stmts(gl.node) if isinstance(s_, ast.Return)]
+            okc = okc and len(ret) == 1 and norm(ret[0].value) == norm(fctx(gl)[2][ctor[0]].func.value)
+        r5.check(okc, "every batch becomes one KpointBZpath appended, in order, to the returned list", gl, ctor[0] if ctor else lp5,
+                 "a batch is not wrapped into its own KpointBZpath and appended to the returned list")
     kp = idx.cls("wannierberri/grid/Kpoint.py", "KpointBZpath")
-    r5.check("K=np.copy(K).reshape(-1, 3)" in norm(kp.methods["__init__"].node), "a path K-point stores exactly its batch of k-vectors", kp.methods["__init__"], kp.methods["__init__"].node,
-             "KpointBZpath no longer stores its batch of k-vectors unchanged", stmt="KpointBZpath")
+    ini = kp.methods["__init__"]
+    sup = [c for c in ast.walk(ini.node) if isinstance(c, ast.Call) and norm(c.func) == "super().__init__"]
+    kpn = ini.params[1] if len(ini.params) > 1 else "K"
+    if len(sup) != 1:
+        r5.expect(False, "KpointBZpath constructor chains to the base", ini, ini.node, "KpointBZpath.__init__: super().__init__(K=…) not found")
+    else:
+        kv = kwarg(sup[0], "K", 0)
+        kv = fctx(ini)[1].resolve_local(kv, fctx(ini)[1].node_of_expr(sup[0])) if kv is not None else None
+        forms = (f"np.copy({kpn}).reshape(-1, 3)", f"np.array({kpn}).reshape(-1, 3)", f"np.copy({kpn}).reshape((-1, 3))", f"np.array({kpn}, dtype=float).reshape(-1, 3)",
+                 f"np.copy({kpn})", f"np.array({kpn})", kpn)
+        r5.check(kv is not None and norm(kv) in forms, "a path K-point stores exactly its batch of k-vectors", ini, sup[0],
+                 f"KpointBZpath stores `{norm1(kv) if kv is not None else None}` instead of its batch of k-vectors (as rows of 3)")
     dk = idx.function("wannierberri/data_K/data_K.py", "Data_K.__init__")
-    r5.check("if isinstance(Kpoint, KpointBZpath):\n        k_list = Kpoint.K" in norm(dk.node).replace("            ", "        ") or "k_list = Kpoint.K" in norm(dk.node),
-             "a path K-point is evaluated at its own k-list", dk, dk.node, "Data_K no longer takes k_list from the path K-point", stmt="k_list = Kpoint.K")
+    kpar = "Kpoint"
+    got = pmatch(dk.node, f"if isinstance({kpar}, KpointBZpath):\n    KL = {kpar}.K\n    ...\nelse:\n    ...", {"KL"}) or \
+        pmatch(dk.node, f"if isinstance({kpar}, KpointBZpath):\n    ...\n    KL = {kpar}.K\n    ...\nelse:\n    ...", {"KL"}) or \
+        pmatch(dk.node, f"if isinstance({kpar}, KpointBZpath):\n    ...\n    KL = {kpar}.K\n    ...", {"KL"})
+    r5.check(bool(got), "a path K-point is evaluated at its own k-list", dk, dk.node, "Data_K no longer takes k_list from the path K-point", stmt="k_list = Kpoint.K")
 
 
 from ..selftest import V  # noqa: E402
@@ -185,5 +307,17 @@ SELFTEST = [
       "                start = np.array(start)\n                end = np.array(end)\n                assert start.shape == end.shape == (3, )", "fire", "R29.4"),
     V("batches overlap by one point", PT, "K = self.K_list[ik:ik + k_batch]", "K = self.K_list[ik:ik + k_batch + 1]", "fire", "R29.5"),
     V("path re-ordering dropped in run()", "wannierberri/run_grid.py", "                val.self_to_path(path=grid)", "                pass", "fire", "R29.1"),
+    V("break recorded before the end node is stacked", PT, "                K_list = np.vstack((K_list, [start]))\n                breaks.append(K_list.shape[0] - 1)",
+      "                breaks.append(K_list.shape[0] - 1)\n                K_list = np.vstack((K_list, [start]))", "fire", "R29.4"),
+    V("last label keyed before the last node is stacked", PT, "        K_list = np.vstack((K_list, nodes[-1]))\n        new_labels[K_list.shape[0] - 1] = labels[-1]",
+      "        new_labels[K_list.shape[0] - 1] = labels[-1]\n        K_list = np.vstack((K_list, nodes[-1]))", "fire", "R29.4"),
+    V("path evaluated in grid mode", EK, "mode='path', ibands=ibands)", "mode='grid', ibands=ibands)", "fire", "R29.1"),
+    V("refined breaks keyed one too far", PT, "                breaks_refined.append(len(K_list_refined) - 1)\n            if i not in self.breaks:", "                breaks_refined.append(len(K_list_refined))\n            if i not in self.breaks:", "fire", "R29.2"),
+    V("batches start at 1", PT, "for ik in range(0, len(self.K_list), k_batch):", "for ik in range(1, len(self.K_list), k_batch):", "fire", "R29.5"),
+    V("neutral: refined lists renamed", PT, "K_list_refined", "refined", "silent", replace_all=True),
+    V("neutral: labels_refined renamed", PT, "labels_refined", "new_lab", "silent", replace_all=True),
+    V("neutral: loop variables renamed in from_nodes", PT, "new_labels", "lab_by_index", "silent", replace_all=True),
+    V("neutral: getKline locals renamed", PT, "KPcart", "kcart", "silent", replace_all=True),
+    V("neutral: insertion under else of the break test", PT, "            if i not in self.breaks:\n                segment", "            if i in self.breaks:\n                pass\n            else:\n                segment", "silent"),
     V("neutral: segment written with explicit division", PT, "K_list_refined.append(self.K_list[i] + j * segment)", "K_list_refined.append(self.K_list[i] + segment * j)", "silent"),
 ]
